@@ -815,6 +815,22 @@ def install_pandas_patches():
     _pd.DataFrame.groupby = df_groupby
     _pd.Series.groupby = s_groupby
 
+    orig_sort_values = _pd.DataFrame.sort_values
+
+    def df_sort_values(self, by=None, *a, **k):
+        # multi-key sorts factorise each key column through a hash table (Categorical):
+        # a proxy and a plain number that are equal must be one category
+        if _sym_mode() and isinstance(by, (list, tuple)) and len(by) > 1:
+            symcols = [n for n in by if isinstance(n, str) and n in self.columns and self[n].dtype == object and has_sym(self[n])]
+            mixed = [n for n in symcols if any(not isinstance(v, Sym) for v in self[n].values)]
+            if mixed:
+                self = self.copy()
+                for n in mixed:
+                    self[n] = canon_keys(self[n].values)
+        return orig_sort_values(self, by, *a, **k)
+
+    _pd.DataFrame.sort_values = df_sort_values
+
     orig_unique = _pd.Series.unique
     orig_dup = _pd.Series.duplicated
     orig_dropdup = _pd.Series.drop_duplicates
